@@ -56,6 +56,10 @@ def reader_ports(o: dict):
     if k in ("LoadConstant", "LoadFunction"):
         return (True, 0, 1, 1, 0)
     if k == "Tag":
+        if not 0 <= o["tag"] < len(o["variants"]):
+            # the tag names no variant: the operation has no signature (hugr-core rejects the document); no port of
+            # it is known to the reader, in particular no order port (coq/model/ComposeOps.v reader_ports agrees)
+            return (False, 0, 0, 0, 0)
         return (True, len(o["variants"][o["tag"]]), 0, 1, 0)
     if k in ("Const", "FuncDefn", "FuncDecl"):
         return (False, 0, 0, 0, 1)
@@ -912,6 +916,16 @@ class RT(fw.Prop):
             {"kind": "hist", "root": ["module"], "muts": [
                 ["add_node", ["dfg", [], []], 0, None, None], ["add_node", ["const", ["true"]], 0, None, None],
                 ["add_node", ["dfg", [], []], 0, None, None], ["delete_node", 2], ["add_node", ["const", ["true"]], 3, None, None]]},
+            # an operation with NO value port in a direction but a recorded port count > 0 (add_node(..., num_outs=2)) and an
+            # order link: the order port is addressed at offset 0, the operation's own count -- a count of 0 is not "no count"
+            # (hand mutation X02-m2: `_num_dataflow_ports(...) or self.num_ports(...)`)
+            {"kind": "hist", "root": ["dfg", [], []], "muts": [
+                ["add_node", ["dfg", [], []], 0, None, 2], ["add_node", ["dfg", [], []], 0, None, None], ["add_order", 1, 2]]},
+            # a Tag whose tag names no variant has no signature: ops._num_dataflow_ports must answer "no count" for it, not
+            # raise IndexError while the library loads its own document (fixed f60e9c0)
+            {"kind": "hist", "root": ["dfg", ["B"], ["B"]], "muts": [
+                ["add_node", ["input", ["B"]], 0, None, None], ["add_node", ["tag", 5, ["sum", [["B"]]]], 0, {"k": 1}, None],
+                ["add_link", 1, 0, 2, 0]]},
             {"kind": "pkg", "progs": ["poly_func", "two_consts"], "ext": True},
             {"kind": "ext", "which": "custom"},
             # a lowering HUGR inside an extension must be a wire-format document (FixedHugr, fixed c8729f5);
